@@ -29,6 +29,11 @@ fn(PORT + ".handle", params={"event": _ev.IO_EVENTS}, effect="yields", assume_on
    trusted_reason="interface of ProtocolWrapper.handle as seen by the servers (same precondition as the wrapper's own contract)")
 
 VIEWS = {"views": {"hypercorn.protocol:ProtocolWrapper": PORT}}
+# C16 / C08: every write to the transport is made while the connection's send lock is held -- several
+# tasks of one connection write (the application tasks, the HTTP/2 send task, the reader answering a
+# ping or an error); asyncio would interleave a second writer's drain, a trio stream refuses a
+# second sender with BusyResourceError
+SEND_VIEWS = dict(VIEWS, call_requires={"transport.write": [("C16.send.under-lock", "self.send_lock.locked()", "C16,C08,C02")]})
 
 COMMON_FIELDS = {"app": "opaque", "config": "obj hypercorn.config:Config", "context": "obj hypercorn.typing:WorkerContext",
                  "protocol": "maybe obj " + PORT, "state": "dict{}"}
@@ -65,7 +70,7 @@ cls(A, fields=dict(COMMON_FIELDS, loop="opaque", reader="obj asyncio:StreamReade
     immutable=["app", "config", "context", "loop", "reader", "writer", "send_lock", "state", "idle_task"],
     write_once=["protocol", "_task_group"])
 
-fn(A + ".protocol_send", params={"event": _ev.IO_EVENTS}, model_opts=VIEWS,
+fn(A + ".protocol_send", params={"event": _ev.IO_EVENTS}, model_opts=SEND_VIEWS,
    requires=[("send.pre.running", "has(self, 'protocol') and has(self, '_task_group') and value_of(self, 'protocol').g_initiated")],
    ensures=send_clauses("AsyncioSingleTask") + [
        # C08 (transport paused): a send returns only after the transport has taken the data or
@@ -153,7 +158,7 @@ cls(T, fields=dict(COMMON_FIELDS, stream="obj trio:Stream", send_lock="obj trio:
     immutable=["app", "config", "context", "stream", "send_lock", "state", "idle_task"],
     write_once=["protocol", "_task_group"])
 
-fn(T + ".protocol_send", params={"event": _ev.IO_EVENTS}, model_opts=VIEWS,
+fn(T + ".protocol_send", params={"event": _ev.IO_EVENTS}, model_opts=SEND_VIEWS,
    requires=[("send.pre.running", "has(self, 'protocol') and has(self, '_task_group') and value_of(self, 'protocol').g_initiated and value_of(self, '_task_group')._nursery is not None")],
    ensures=send_clauses("TrioSingleTask"), props=("C04", "C16", "C07", "C03", "C06", "C08", "C15"))
 
